@@ -219,6 +219,9 @@ class MappingStorage:
             # Step 2, GC.  A simple sweep+copy
             new_data = BTrees.OOBTree.OOBTree()
             to_copy = {ZODB.utils.z64}
+            # Objects written after the pack time are never removed.
+            to_copy.update(oid for oid, tid_data in self._data.items()
+                           if tid_data.maxKey() > stop)
             while to_copy:
                 oid = to_copy.pop()
                 tid_data = self._data.pop(oid)
